@@ -57,6 +57,14 @@ def gen_C11(w, tier):
         i = len(sc.lines)
         sc.do("randrange %d %d %s" % (3, 3 + maxval, hx(stream)))
         rec2.append((i, 3, maxval, stream))
+    # very long runs of rejected draws (an RNG that returns 0xff while warming up): no bound on the number of draws
+    for maxval, nrej in ((3, 300), (200, 300), (257, 400), (65535 - 7, 120), (2 ** 160 - 5, 260), (2 ** 256 - 189, 330)):
+        nb = (max(maxval.bit_length(), 1) + 7) // 8
+        good = (maxval - 1).to_bytes(nb, "big")
+        stream = b"\xff" * (nb * nrej) + good
+        i = len(sc.lines)
+        sc.do("randrange %d %d %s" % (3, 3 + maxval, hx(stream)))
+        rec2.append((i, 3, maxval, stream))
     sc.meta["rec2"] = rec2
 
     def pred_streams(io, sc):
@@ -92,7 +100,8 @@ def gen_C11(w, tier):
         else:
             nb = ps.ssize
             streams = [b"\x00" * nb, b"\xff" * nb, q.to_bytes(nb, "big"), (q - 1).to_bytes(nb, "big"), (q + 1).to_bytes(nb, "big") + (5).to_bytes(nb, "big"),
-                       b"\xff" * (3 * nb) + (7).to_bytes(nb, "big"), b"\xff" * nb + b"\x00" * (nb - 1), b""] + [bytes(r.randrange(256) for _ in range(2 * nb)) for _ in range(5)]
+                       b"\xff" * (3 * nb) + (7).to_bytes(nb, "big"), b"\xff" * (330 * nb) + (9).to_bytes(nb, "big"),
+                       b"\xff" * nb + b"\x00" * (nb - 1), b""] + [bytes(r.randrange(256) for _ in range(2 * nb)) for _ in range(5)]
         for st in streams:
             i = len(sc.lines)
             sc.do("g.rand %d %s" % (ps.gid, hx(st)))
@@ -109,10 +118,22 @@ def gen_C11(w, tier):
                         return "Ed25519 random_scalar: %s, specification %s" % (o, want)
                 elif o.startswith("ok"):
                     return "Ed25519 random_scalar returned with fewer than 64 bytes of entropy"
-            elif o.startswith("ok"):
-                v = int(o.split()[1])
-                if not (0 <= v < q):
-                    return "integer random_scalar out of range"
+            else:
+                bits = q.bit_length()
+                mask = (1 << (bits - 8 * (nb - 1))) - 1 if bits % 8 else 0xff
+                pos, want = 0, None
+                while pos + nb <= len(st):
+                    ch = st[pos:pos + nb]
+                    pos += nb
+                    c = int.from_bytes(bytes([ch[0] & mask]) + ch[1:], "big")
+                    if c < q:
+                        want = "ok %d %d" % (c, pos)
+                        break
+                if want is None:
+                    if o.startswith("ok"):
+                        return "integer random_scalar returned although no draw qualified"
+                elif o != want:
+                    return "integer random_scalar: %s, specification %s" % (o[:80], want[:80])
         return None
     sc.pred = pred_rs
     out.append(sc)
@@ -135,7 +156,11 @@ def gen_C11(w, tier):
                 continue
             for side, x in [(sd, xv) for sd in "ABS" for xv in (0, 1, ps.q - 1, w.scalar(ps, 0))]:
                 ent = w.entropy_for(ps, x, redraws=(2 if ps.kind == "int" else 0), extra=b"\xaa" * 40)
-                a = sc.new(side, ps, b"pw", b"", b"", ent)
+                if x == 1:
+                    a = w.sid()          # an entropy callable that is falsy must still be the one that is used
+                    sc.do("newfalsy %d %s %d %s - - %s" % (a, side, ps.pid, hx(b"pw"), hx(ent)))
+                else:
+                    a = sc.new(side, ps, b"pw", b"", b"", ent)
                 r0 = sc.do("entreq %d" % a, NONE)
                 sc.start(a)
                 r1 = sc.do("entreq %d" % a, NONE)
